@@ -386,4 +386,32 @@ def wRemove : List Cache → Nat → Int → Int → List Cache × Rm
 
 def wCanResume (cs : List Cache) (seq : Nat) (pos : Int) : Bool := cs.all (fun c => canResume c seq pos)
 
+/-! ### EncoderCache (kvcache/encoder.go): position independent, one sequence -/
+
+structure Enc where
+  curPos : Int := 0
+  curReserve : Bool := false
+  cached : Bool := false
+  encPos : Int := 0
+  /-- per layer: identity of the tensors held (what `Get` returns) -/
+  layers : List (Nat × Nat) := []
+
+inductive EOp where
+  /-- `StartForward`: position of the batch's last image (if any), reserve flag -/
+  | start (imagePos : Option Int) (reserve : Bool)
+  /-- `Put` of data `id` on the active layer `l` -/
+  | put (l : Nat) (id : Nat)
+  | remove (b e : Int)
+
+def Enc.setLayer (s : Enc) (l id : Nat) : Enc :=
+  { s with layers := (l, id) :: s.layers.filter (fun p => p.1 ≠ l) }
+
+def Enc.get (s : Enc) (l : Nat) : Option Nat := (s.layers.find? (fun p => p.1 = l)).map (·.2)
+
+def encStep (s : Enc) : EOp → Enc
+  | .start p r => { s with curPos := p.getD s.curPos, curReserve := r }
+  | .put l id =>
+    (if s.curReserve then s else { s with encPos := s.curPos, cached := true }).setLayer l id
+  | .remove b e => if b ≤ s.encPos ∧ s.encPos < e then { s with cached := false } else s
+
 end OllamaVerif.Causal
